@@ -99,9 +99,10 @@ def _colslice(a):
 
 
 class Rep:
-    def __init__(self, name, cls, conv, unit=False, nddata=False):
+    def __init__(self, name, cls, conv, unit=False, nddata=False, unc='plain'):
         self.name, self.cls, self._conv, self.nddata = name, cls, conv, nddata
         self.has_unit = unit
+        self.unc = unc          # how an NDData uncertainty holds the same errors (see _nd)
 
     @property
     def unit(self):
@@ -192,6 +193,11 @@ REPS = [
     Rep('ma_false', 'masked', lambda a: np.ma.MaskedArray(a.astype('f8'), mask=np.zeros(a.shape, bool))),
     Rep('nddata', 'nddata', _mk('f8'), nddata=True),
     Rep('nddata_unit', 'nddata', _mk('f8'), unit=True, nddata=True),
+    # the same errors held as an uncertainty with its own (equivalent, differently scaled) unit,
+    # and as a variance
+    Rep('nddata_unit_mJyerr', 'nddata', _mk('f8'), unit=True, nddata=True, unc='mJy'),
+    Rep('nddata_unit_var', 'nddata', _mk('f8'), unit=True, nddata=True, unc='var'),
+    Rep('nddata_var', 'nddata', _mk('f8'), nddata=True, unc='var'),
     Rep('Jy', 'quantity', _mk('f8'), unit=True),
     Rep('Jy_f4', 'quantity-float32', _mk('f4'), unit=True),
     Rep('nddata_i2', 'nddata-int', _mk('i2'), nddata=True),
@@ -334,7 +340,15 @@ def _nd(sc, rep, with_err=True, mask=None, data=None):
     from astropy.nddata import NDData, StdDevUncertainty
     kw = {}
     if with_err:
-        kw['uncertainty'] = StdDevUncertainty(sc.err.astype(float))
+        import astropy.units as u
+        from astropy.nddata import VarianceUncertainty
+        e = sc.err.astype(float)
+        if rep.unc == 'mJy':
+            kw['uncertainty'] = StdDevUncertainty(e * 1000.0, unit=u.mJy)
+        elif rep.unc == 'var':
+            kw['uncertainty'] = VarianceUncertainty(e ** 2, unit=rep.unit ** 2 if rep.has_unit else None)
+        else:
+            kw['uncertainty'] = StdDevUncertainty(e)
     if rep.has_unit:
         kw['unit'] = rep.unit
     if mask is not None:
@@ -745,12 +759,16 @@ def e_iterative_psf(sc, rep, cfg):
     finder = DAOStarFinder(rep.s(30), 4.0, roundlo=-2, roundhi=2, sharplo=0, sharphi=2)
     phot = IterativePSFPhotometry(CircularGaussianPRF(fwhm=5.2), (7, 7), finder=finder, aperture_radius=5, maxiters=2)
     dat = np.clip(sc.base, 20, None) - 20
-    t = phot(rep.a(dat), error=rep.e(sc.err))
+    if rep.nddata:
+        t = phot(_nd(sc, rep, data=dat))
+    else:
+        t = phot(rep.a(dat), error=rep.e(sc.err))
     out = {}
     for c, up in (('x_fit', 0), ('y_fit', 0), ('flux_fit', 1), ('flux_err', 1), ('flux_init', 1)):
         out[c] = ('fit', t[c], up)
     out['iter_detected'] = ('exact', t['iter_detected'], None)
-    res = phot.make_residual_image(rep.a(dat), psf_shape=(7, 7))
+    res = phot.make_residual_image(rep.raw(dat) * rep.unit if rep.nddata and rep.has_unit else
+                                   (rep.raw(dat) if rep.nddata else rep.a(dat)), psf_shape=(7, 7))
     out['residual'] = ('fit', res, 1)
     return out
 
@@ -769,7 +787,11 @@ def e_extract_stars(sc, rep, cfg):
             'center': ('val', np.array([st.cutout_center for st in stars]), None)}
 
 
-ND_OK = ('aperture_photometry', 'ApertureStats', 'Background2D', 'PSFPhotometry', 'extract_stars')
+ND_OK = ('aperture_photometry', 'ApertureStats', 'Background2D', 'PSFPhotometry', 'extract_stars',
+         'IterativePSFPhotometry')
+# an uncertainty with its own unit, or held as a variance: only where the entry point converts the
+# uncertainty itself (aperture_photometry / ApertureStats document a StdDevUncertainty in the data unit)
+UNC_OK = ('PSFPhotometry', 'IterativePSFPhotometry')
 ENTRIES = [
     ('aperture_photometry', e_aperture_photometry, ['exact', 'center']),
     ('ApertureStats', e_aperture_stats, ['plain', 'clip']),
@@ -814,6 +836,8 @@ def evaluate(sc, entry, cfg, repname):
     """-> (fails, status) ; status in {'ok', 'n/a', 'ref-failed'}"""
     rep = REPMAP[repname]
     if rep.nddata and entry not in ND_OK:
+        return [], 'n/a'
+    if rep.unc != 'plain' and entry not in UNC_OK:
         return [], 'n/a'
     if getattr(rep, 'err_only', False) and not (entry in USES_ERROR or '%s:%s' % (entry, cfg) in USES_ERROR):
         return [], 'n/a'
